@@ -218,16 +218,70 @@ def harness_build(repo, P):
                 sums += open(ep).read()
         open(os.path.join(bdir, name + ".sum"), "w").write(sums)
         binp = os.path.join(bdir, name)
-        rc, out = run(["go", "build", "-modfile=" + modfile, "-tags", "verif", "-o", binp, "./cmd/" + name],
+        cover = cover_pkgs(P)
+        # the main package must be instrumented too, otherwise no counters are written at exit
+        cflags = ["-cover", "-covermode=atomic", "-coverpkg=" + ",".join(cover + ["./cmd/" + name])] if cover else []
+        rc, out = run(["go", "build", "-modfile=" + modfile, "-tags", "verif"] + cflags + ["-o", binp, "./cmd/" + name],
                       900, cwd=modsrc, env=GOENV)
+        if rc != 0 and cflags:
+            # never let the coverage instrumentation stand between the check and the code
+            rc, out = run(["go", "build", "-modfile=" + modfile, "-tags", "verif", "-o", binp, "./cmd/" + name],
+                          900, cwd=modsrc, env=GOENV)
         if rc != 0:
             return None, "go build failed:\n" + "\n".join(out.strip().split("\n")[-30:])
         return binp, None
 
 
+def anchor_files(P):
+    for l in open(os.path.join(ROOT, "properties.jsonl")):
+        if l.strip():
+            j = json.loads(l)
+            if j["id"] == getattr(P, "ANCHOR_ID", P.ID):
+                return [f for f in j["anchors"]["files"] if f.endswith(".go")]
+    return []
+
+
+def import_path(f):
+    d = os.path.dirname(f)
+    if f.startswith("_projects/mmo/server/"):
+        return "mmo/" + d[len("_projects/mmo/server/"):]
+    return "github.com/dfklegend/cell2/" + d
+
+
+def cover_pkgs(P):
+    if getattr(P, "NO_COVER", False) or os.environ.get("VERIF_NOCOVER") == "1":
+        return []
+    return sorted({import_path(f) for f in anchor_files(P)} | set(getattr(P, "COVER_EXTRA", [])))
+
+
+def coverage_report(P, covdir):
+    """statement coverage of the property's anchor files by this run's harness execution"""
+    if not os.path.isdir(covdir) or not os.listdir(covdir):
+        return None
+    txt = os.path.join(covdir, "cov.txt")
+    rc, out = run(["go", "tool", "covdata", "textfmt", "-i=" + covdir, "-o", txt], 120, env=GOENV)
+    if rc != 0 or not os.path.exists(txt):
+        return None
+    want = {import_path(f) + "/" + os.path.basename(f): f for f in anchor_files(P)}
+    tot, cov = {}, {}
+    for line in open(txt):
+        m = re.match(r"(\S+):\d+\.\d+,\d+\.\d+ (\d+) (\d+)", line)
+        if not m or m.group(1) not in want:
+            continue
+        f = want[m.group(1)]
+        n, c = int(m.group(2)), int(m.group(3))
+        tot[f] = tot.get(f, 0) + n
+        cov[f] = cov.get(f, 0) + (n if c > 0 else 0)
+    return {f: {"statements": tot[f], "covered": cov[f], "percent": round(100.0 * cov[f] / tot[f], 1) if tot[f] else 0.0}
+            for f in sorted(tot)}
+
+
 def harness_run(binp, P, args, out_jsonl, scratch, timeout):
     cmd = [binp, P.ID, "--out", out_jsonl, "--scratch", scratch] + args
     env = dict(os.environ)
+    covdir = os.path.join(scratch, "cov")
+    os.makedirs(covdir, exist_ok=True)
+    env["GOCOVERDIR"] = covdir
     rc, out = run(cmd, timeout, cwd=scratch, env=env)
     return rc, out
 
@@ -584,6 +638,9 @@ def main():
         }
         if "coqchk_s" in pr:
             cov["coqchk"] = {"wall_s": pr["coqchk_s"], "rc": pr["coqchk_rc"], "tail": pr["coqchk_tail"][-12:]}
+        cr = coverage_report(P, os.path.join(workdir, "cov"))
+        if cr:
+            cov["anchor_statement_coverage"] = cr
         if sub_results:
             cov["sub_checks"] = sub_results
         if hasattr(P, "extra_coverage"):
